@@ -680,6 +680,7 @@ Print Assumptions C02_cover_sequential_pipeline_x2_partial.
 
 Theorem C02_ops_x_x2 : forall C ops w hot, ops_x C w hot ops -> ops_x2 C w hot ops.
 Proof. exact ops_x_x2. Qed.
+Print Assumptions C02_ops_x_x2.
 
 (* mkdir R/a; mkdir R/b; mv R/a O/x; mv R/b O/y (two move-outs back to back); mkdir R/a; mv R/a R/b *)
 Definition two_out_ops : list op :=
